@@ -183,6 +183,16 @@ impl<'a> SendLastStateProofProcess<'a> {
                 .chain(Some(&last_header))
         ));
 
+        // Without sampled headers, the reorg headers are followed by the last n headers directly:
+        // the two sections are continuous too (the fork is tied to the blocks it extends).
+        if sampled_count == 0 && reorg_count != 0 && last_n_count != 0 {
+            return_if_failed!(check_continuous_headers(
+                &headers[(reorg_count - 1)..=reorg_count]
+            ));
+            return_if_failed!(self.protocol.check_total_difficulty_for_continuous_headers(
+                verifiable_headers[(reorg_count - 1)..=reorg_count].iter()
+            ));
+        }
         // Verify MMR proof
         return_if_failed!(verify_mmr_proof(
             self.protocol.mmr_activated_epoch(),
